@@ -86,8 +86,12 @@
         the emitted routine (any item list equal to the routine up to comment text), for LabelSafe,
         LinTyped INTEGER programs; `C06_int_programs_text`: the same for `X86.run` on the TEXT, given that
         the text loads (`TextLoads`: print → parse round trip of this routine).
-    NOT proved: `C06_loader_statement` (print → parse round trip for every text-safe routine; Lean's
-    `String.splitOn` does not reduce in the kernel and has no lemmas in core), the memory ops
+    `C06_loader_statement` (print → parse round trip for every text-safe routine) IS NOW A THEOREM:
+    `C14_loader` in Props/C14Loader.lean (agent loader; `String.splitOn` characterised from
+    `String.splitOnAux` in Scc/StringLemmas.lean), and `C14_routine_loads`: every routine of the backend
+    model loads, given `ProgInRange` and the decidable names check `C14_namesTextSafe`; hence
+    `C06_int_programs_loaded` = `C06_int_programs_text` without `TextLoads`.
+    NOT proved: the memory ops
     (store/load/erase/share at machine level against the abstract heap): `RepX86` has no heap clause.
   * DEFECT (genuine; confirmed with GNU as on the emitted text):
       `C06_mul_alias_witness` — `mul` with a spilled target aliasing a source emits `imul [mem], reg`
@@ -803,9 +807,9 @@ def codeTextOK (code : Code) : Bool :=
    | .COMMENT m => m.toList.all (· != '\n')
    | _ => true)
 
-/-- THE REMAINING LOADER LEMMA (NOT proved; checked by the differential tests of the harness on every
-program of a run, and by `#eval` on the example below): the printed text of a routine whose items are
-text-safe is read back by the machine's parser, up to the text of comments. -/
+/-- THE LOADER LEMMA (PROVED: `C14_loader`, Props/C14Loader.lean, which imports this file; kept here as
+the statement): the printed text of a routine whose items are text-safe is read back by the machine's
+parser, up to the text of comments. -/
 def C06_loader_statement : Prop :=
   ∀ routine : List Code, (∀ code ∈ routine, codeTextOK code = true) → TextLoads routine
 
